@@ -63,10 +63,19 @@ class IsoTpStateMachine:
             frame_type, telegram_len = bitstruct.unpack("u4u4", data)
             assert isinstance(telegram_len, int)
 
-            self.on_single_frame(telegram_idx, data[1:1 + telegram_len])
-            self.on_telegram_complete(telegram_idx, data[1:1 + telegram_len])
+            payload_offset = 1
+            if telegram_len == 0 and len(data) > 8:
+                # CAN-FD single frame: the length nibble is zero and
+                # the payload length is specified by the second byte
+                telegram_len = data[1]
+                payload_offset = 2
 
-            yield (rx_id, data[1:1 + telegram_len])
+            telegram_data = data[payload_offset:payload_offset + telegram_len]
+
+            self.on_single_frame(telegram_idx, telegram_data)
+            self.on_telegram_complete(telegram_idx, telegram_data)
+
+            yield (rx_id, telegram_data)
 
         elif frame_type == IsoTp.FRAME_TYPE_FIRST:
             frame_type, telegram_len = bitstruct.unpack("u4u12", data)
